@@ -699,6 +699,144 @@ def run_c17(ctx):
     ctx.cov["partial"] = "data races inside aws-lc / libsodium and the validity of `unsafe impl Send/Sync` cannot be exhibited by the Lean model; thorough tier is the place for a ThreadSanitizer run (supporting)"
 
 
+# ------------------------------------------------------------------ C18
+def run_c18(ctx):
+    import probes, checklib
+    cat = probes.catalogue(ctx.tier == "thorough")
+    # Extracted/Impls.lean is regenerated by checklib.regen_facts before the obligations are built
+    res, lib_ok, err = probes.run(cat)
+    if not lib_ok:
+        ctx.k_broken.append({"kind": "probe-support-crate", "detail": err})
+        return
+    ops = [probes.op_line(op, a) for op, a in cat]
+    # policy oracle computed independently in Python from the property's wording
+    def policy(op, a):
+        if op in ("seal", "unseal", "encrypt", "decrypt", "sign", "verify"):
+            tv, p, kv, kk = a
+            want_k = {"seal": {"local": "local", "public": "secret"}[p], "unseal": p,
+                      "encrypt": "local", "decrypt": "local", "sign": "secret", "verify": "public"}[op]
+            want_p = {"encrypt": "local", "decrypt": "local", "sign": "public", "verify": "public"}.get(op, p)
+            return tv == kv and kk == want_k and p == want_p
+        if op == "wrapPie":
+            v, k, wv, wk = a
+            return k in ("local", "secret") and v == wv and wk == "local"
+        if op == "pwWrap":
+            return a[1] in ("local", "secret")
+        if op == "sealKey":
+            v, k, pv, pk = a
+            return k == "local" and v == pv and pk == "pkepublic"
+        if op == "displayKey":
+            return a[1] == "public"
+        if op in ("debugKey", "serializeKey", "displayUnsealed", "serializeUnsealed", "fieldFooter", "fieldPayload"):
+            return False
+        if op == "publicKey":
+            return a[1] == "secret"
+        return True   # exposeKey, keyId, displaySealed, unverifiedFooter
+    impl_lines, want = [], {}
+    for i, (op, a) in enumerate(cat):
+        acc, codes = res[i]
+        pol = policy(op, a)
+        impl_lines.append("ok %s policy=%s" % ("accept" if acc else "reject", "accept" if pol else "reject"))
+        want[ops[i]] = (pol, codes)
+
+    def oracle(o, i):
+        pol, codes = want[o]
+        acc = i.startswith("ok accept")
+        t = o.split(" ")
+        if acc and not pol:
+            return ("a misuse program compiles: " + o, "%s/%s/compiles" % (t[2], t[1]))
+        if pol and not acc:
+            return ("a correct program is rejected by the compiler: " + o + " " + ",".join(codes), "%s/%s/rejected" % (t[2], t[1]))
+        if not acc and not (set(codes) & {"E0277", "E0599", "E0308", "E0616"}):
+            return ("rejected for an unexpected reason (%s): %s" % (",".join(codes), o), "%s/%s/other-error" % (t[2], t[1]))
+        return None
+    run_stream(ctx, "probes", [], policy="full", oracle=oracle, ops="\n".join(ops) + "\n", impl_lines=impl_lines,
+               nontrivial=lambda o, i: tuple(o.split(" ")[1:]))
+    codes = {}
+    for i in res:
+        for c in res[i][1]:
+            codes[c] = codes.get(c, 0) + 1
+    ctx.cov["programs"] = len(cat)
+    ctx.cov["error_codes"] = codes
+    ctx.cov["rule"] = ("one program per catalogue entry (each forbidden combination of version x purpose x key kind x operation and its well-typed counterpart, per back end) compiled by rustc against /repo; verdict compared with the Lean typing "
+                       "model over the impl table re-read from rustc (K) and with the property's policy computed independently (O); error code families E0277/E0599/E0308/E0616")
+    ctx.cov["partial"] = "rustc is the implementation of the type system; the model covers the bounds of the catalogued operations"
+
+
+# ------------------------------------------------------------------ C19
+def run_c19(ctx):
+    import featscan, subprocess, os, threading, checklib
+    info = getattr(ctx, "feat_info", None) or featscan.emit()[1]
+    md = featscan.cargo_metadata_features()
+    jobs = []   # (crate, feature list, mask or None)
+    for crate in featscan.CRATES:
+        names = info[crate]["names"]
+        feats = info[crate]["features"]
+        if md is not None and sorted(md.get(crate, {})) != sorted(feats):
+            ctx.k_broken.append({"kind": "feature-table", "detail": "Cargo.toml features of %s differ from cargo metadata" % crate})
+        # distinct closures
+        seen = {}
+        for mask in range(1 << len(names)):
+            S = [names[i] for i in range(len(names)) if mask >> i & 1]
+            C = frozenset(featscan.closure(feats, S))
+            seen.setdefault(C, mask)
+        closures = sorted(seen.items(), key=lambda kv: (len(kv[0]), sorted(kv[0])))
+        ctx.cov.setdefault("distinct_closures", {})[crate] = len(closures)
+        if ctx.tier == "thorough":
+            chosen = closures
+        else:
+            # cover the empty set, every single feature, the full set and a few pairs
+            want = [frozenset(featscan.closure(feats, [f])) for f in names] + [frozenset(), frozenset(featscan.closure(feats, names))]
+            want += [frozenset(featscan.closure(feats, [a, b])) for a, b in (("verifying", "decrypting"), ("signing", "id"), ("pie-wrap", "verifying"), ("pbkw", "signing"))]
+            chosen = [(c, m) for c, m in closures if c in set(want)]
+        for c, m in chosen:
+            jobs.append((crate, sorted(c), m))
+    extra = [("paseto-core", [], None), ("paseto-core", ["serde"], None), ("paseto-json", [], None), ("paseto-json", ["claims"], None)]
+    results = {}
+
+    def worker(k, crate_jobs):
+        env = dict(os.environ, CARGO_NET_OFFLINE="true", CARGO_TARGET_DIR=os.path.join(checklib.BUILD, "target-feat-%d" % k))
+        for crate, fl, m in crate_jobs:
+            cmd = ["cargo", "check", "--offline", "-q", "-p", crate, "--no-default-features"]
+            if fl:
+                cmd += ["--features", ",".join(fl)]
+            p = subprocess.run(cmd, cwd="/repo", env=env, stdout=subprocess.PIPE, stderr=subprocess.PIPE)
+            errs = [l for l in p.stderr.decode("utf-8", "replace").splitlines() if l.startswith("error")]
+            results[(crate, tuple(fl))] = (p.returncode == 0, errs[:3])
+    groups = {}
+    for j in jobs + extra:
+        groups.setdefault(j[0], []).append(j)
+    th = [threading.Thread(target=worker, args=(k, g)) for k, g in enumerate(groups.values())]
+    for t in th:
+        t.start()
+    for t in th:
+        t.join()
+    ops, impl_lines, detail = [], [], {}
+    for crate, fl, m in jobs:
+        ok, errs = results[(crate, tuple(fl))]
+        op = "feat %s %d" % (crate, m)
+        ops.append(op)
+        impl_lines.append("ok builds=%d" % (1 if ok else 0))
+        detail[op] = (fl, errs)
+    for crate, fl, m in extra:
+        ok, errs = results[(crate, tuple(fl))]
+        op = "o.feat %s %s" % (crate, ",".join(fl) or "-")
+        ops.append(op)
+        impl_lines.append("ok builds=%d" % (1 if ok else 0))
+        detail[op] = (fl, errs)
+
+    def oracle(o, i):
+        if "builds=1" not in i:
+            fl, errs = detail[o]
+            return ("%s does not build with features [%s]: %s" % (o.split(" ")[1], ",".join(fl), " | ".join(errs)[:300]), "%s/features/%s" % (o.split(" ")[1], "+".join(fl) or "none"))
+        return None
+    run_stream(ctx, "feature-sets", [], policy="full", oracle=oracle, ops="\n".join(ops) + "\n", impl_lines=impl_lines,
+               nontrivial=lambda o, i: tuple(o.split(" ")[1:]))
+    ctx.cov["rule"] = ("cargo check --no-default-features --features S for distinct feature closures of paseto-v1..v4 (quick: empty set, every single feature, the full set and cross pairs; thorough: all distinct closures), "
+                       "plus paseto-core with/without serde and paseto-json with/without claims; the Lean consistency predicate over the scanned cfg gates must predict 'builds' for each")
+    ctx.cov["partial"] = "cargo / rustc decide what builds; the gate scan is syntactic (explicit paths to optional crates and gated sibling items)"
+
+
 PROPS = {
     "C15": {"run": run_c15},
     "C09": {"run": run_c09},
@@ -708,6 +846,8 @@ PROPS = {
     "C03": {"run": run_c03},
     "C04": {"run": run_c04},
     "C16": {"run": run_c16},
+    "C18": {"run": run_c18, "search": False},
+    "C19": {"run": run_c19},
     "C17": {"run": run_c17},
     "C05": {"run": run_c05},
     "C06": {"run": run_c06},
